@@ -127,6 +127,19 @@ class _Scan(ast.NodeVisitor):
         self.generic_visit(node)
         self.func = old
 
+    def visit_Assert(self, node):
+        # `python -O` / PYTHONOPTIMIZE removes assert statements: a call inside one is work that is silently not done
+        for n in ast.walk(node.test):
+            if isinstance(n, ast.Call):
+                self.hits.append((self.fname, self.func, "call inside assert (removed under PYTHONOPTIMIZE): " + ast.unparse(n)[:60], node.lineno))
+                break
+        self.generic_visit(node)
+
+    def visit_Name(self, node):
+        if node.id == "__debug__":
+            self.hits.append((self.fname, self.func, "__debug__ (depends on PYTHONOPTIMIZE)", node.lineno))
+        self.generic_visit(node)
+
     def visit_If(self, node):
         # skip `if __name__ == "__main__":` blocks (never run by the driver)
         t = node.test
